@@ -170,7 +170,8 @@ func (hb HTTPClient) RequestObjectByPost(ctx context.Context, requestURI string,
 
 func (hb HTTPClient) AccessToken(ctx context.Context, tokenEndpoint string, data url.Values, dpopHeader string) (oauth.TokenResponse, error) {
 	var token oauth.TokenResponse
-	tokenURL, err := url.Parse(tokenEndpoint)
+	// the token endpoint comes from remote metadata: in strict mode it must be https and not an IP or reserved address
+	tokenURL, err := core.ParsePublicURL(tokenEndpoint, hb.strictMode)
 	if err != nil {
 		return token, err
 	}
@@ -331,7 +332,8 @@ type CredentialResponse struct {
 }
 
 func (hb HTTPClient) VerifiableCredentials(ctx context.Context, credentialEndpoint string, accessToken string, proofJwt string) (*CredentialResponse, error) {
-	credentialEndpointURL, err := url.Parse(credentialEndpoint)
+	// the credential endpoint comes from remote metadata: in strict mode it must be https and not an IP or reserved address
+	credentialEndpointURL, err := core.ParsePublicURL(credentialEndpoint, hb.strictMode)
 	if err != nil {
 		return nil, err
 	}
